@@ -804,6 +804,9 @@ class PartitionBulkIndexParamSource:
 
     @property
     def percent_completed(self):
+        # the clients of this partition may have nothing to ingest at all (e.g. more clients than documents)
+        if self.total_bulks == 0:
+            return 1.0
         return self.current_bulk / self.total_bulks
 
 
